@@ -69,6 +69,14 @@ def family(tier):
     out += [("nonremovable|1/x", L.bin_("/", n_("1"), v_("x")), 0), ("nonremovable|1/(x-1)**2", L.bin_("/", n_("1"), L.bin_("**", L.bin_("-", v_("x"), n_("1")), n_("2"))), 0),
             ("nonremovable|p/y", L.bin_("/", v_("p"), v_("y")), 0), ("mixed|1/x+T1(x,1)", L.bin_("+", L.bin_("/", n_("1"), v_("x")), T(1, "x", 1)), 1),
             ("mixed|1/y*T0(x,0)", L.bin_("*", L.bin_("/", n_("1"), L.bin_("+", v_("y"), n_("5"))), T(0, "x", 0)), 1)]
+    # one removable singularity in x together with a pole (non-removable, either sign, either side) in the other state
+    poles = {"p/y": L.bin_("/", v_("p"), v_("y")), "1/y**2": L.bin_("/", n_("1"), L.bin_("**", v_("y"), n_("2"))), "1/(1-y)": L.bin_("/", n_("1"), L.bin_("-", n_("1"), v_("y"))),
+             "1/(y+2)": L.bin_("/", n_("1"), L.bin_("+", v_("y"), n_("2"))), "x/y": L.bin_("/", v_("x"), v_("y"))}
+    for pn, pe in poles.items():
+        for op in ("+", "-"):
+            for ti in (0, 1):
+                out.append((f"mixed2|T{ti}(x,0){op}{pn}", L.bin_(op, T(ti, "x", 0), pe), 1))
+            out.append((f"mixed2|T3(x,1){op}{pn}", L.bin_(op, T(3, "x", 1), pe), 1))
     out += [("free|poly", L.bin_("+", L.bin_("*", v_("x"), v_("y")), v_("p")), 0), ("free|exp", L.call("exp", L.neg(v_("x"))), 0), ("free|sin", L.call("sin", L.bin_("*", v_("x"), v_("p"))), 0),
             ("free|const", n_("1.5"), 0), ("free|param-singular", L.bin_("/", v_("x"), v_("p")), 0)]
     return out
@@ -215,6 +223,20 @@ def run_item(item):
         elif len(finite) == 1 and len(lims) == 1:
             fp, fm = list(finite.values())[0]
             want = float((fp + fm) / 2)
+            # degenerate corner: the limit in this state is finite only because the OTHER state sits exactly on a special value (0/y at x = 0)
+            st = list(finite)[0]
+            other = "y" if st == "x" else "x"
+            try:
+                env2 = {"x": mp.mpf(x), "y": mp.mpf(y), "p": mp.mpf(p)}
+                env2[other] = env2[other] + mp.mpf(10) ** -12
+                env2[st] = env2[st] + mp.mpf(10) ** -25
+                v2 = mp_eval(e, env2)
+                if not mp.isfinite(v2) or abs(v2 - want) > 1e-6 * max(1.0, abs(want)):
+                    res["skipped"]["degenerate-corner"] = res["skipped"].get("degenerate-corner", 0) + 1
+                    continue
+            except (ZeroDivisionError, ValueError):
+                res["skipped"]["degenerate-corner"] = res["skipped"].get("degenerate-corner", 0) + 1
+                continue
         elif not finite and not lims and _finite_when_both_perturbed(e, x, y, p):
             res["skipped"]["two-states-singular"] = res["skipped"].get("two-states-singular", 0) + 1
             continue
